@@ -184,6 +184,8 @@ where
             *item = self.output_buf[n] + overlap[n];
         }
         overlap.copy_from_slice(&self.output_buf[self.fft_size_out..]);
+        #[cfg(rubato_verif)]
+        verif::record(wave_in, &self.output_buf);
     }
 }
 
@@ -1036,6 +1038,92 @@ mod tests {
                 max_frames_needed, max_subchunks_needed, expected_max_in_len
             );
             assert_eq!(resampler.input_frames_max(), expected_max_in_len);
+        }
+    }
+}
+
+/// Verification hooks (read-only accessors and a recorder for the FFT unit), compiled only
+/// with `--cfg rubato_verif`.
+#[cfg(rubato_verif)]
+pub mod verif {
+    use super::*;
+    use std::cell::RefCell;
+
+    thread_local! {
+        /// Recorded (input block, full 2*fft_size_out inverse transform) pairs, as debug strings.
+        pub static UNIT_LOG: RefCell<Option<Vec<(Vec<String>, Vec<String>)>>> = RefCell::new(None);
+    }
+
+    pub fn unit_log_start() {
+        UNIT_LOG.with(|l| *l.borrow_mut() = Some(Vec::new()));
+    }
+
+    pub fn unit_log_take() -> Vec<(Vec<String>, Vec<String>)> {
+        UNIT_LOG.with(|l| l.borrow_mut().take().unwrap_or_default())
+    }
+
+    pub(super) fn record<T: Sample>(wave_in: &[T], output_buf: &[T]) {
+        UNIT_LOG.with(|l| {
+            if let Some(log) = l.borrow_mut().as_mut() {
+                log.push((
+                    wave_in.iter().map(|v| format!("{:?}", v)).collect(),
+                    output_buf.iter().map(|v| format!("{:?}", v)).collect(),
+                ));
+            }
+        });
+    }
+
+    impl<T: Sample> FftFixedIn<T> {
+        /// chunk_size_in, fft_size_in, fft_size_out, saved_frames.
+        pub fn verif_state(&self) -> Vec<u64> {
+            vec![
+                self.chunk_size_in as u64,
+                self.fft_size_in as u64,
+                self.fft_size_out as u64,
+                self.saved_frames as u64,
+            ]
+        }
+        pub fn verif_buffers(&self) -> (&Vec<Vec<T>>, &Vec<Vec<T>>) {
+            (&self.overlaps, &self.input_buffers)
+        }
+        pub fn verif_mask(&self) -> &Vec<bool> {
+            &self.channel_mask
+        }
+    }
+
+    impl<T: Sample> FftFixedOut<T> {
+        /// chunk_size_out, fft_size_in, fft_size_out, saved_frames, frames_needed.
+        pub fn verif_state(&self) -> Vec<u64> {
+            vec![
+                self.chunk_size_out as u64,
+                self.fft_size_in as u64,
+                self.fft_size_out as u64,
+                self.saved_frames as u64,
+                self.frames_needed as u64,
+            ]
+        }
+        pub fn verif_buffers(&self) -> (&Vec<Vec<T>>, &Vec<Vec<T>>) {
+            (&self.overlaps, &self.output_buffers)
+        }
+        pub fn verif_mask(&self) -> &Vec<bool> {
+            &self.channel_mask
+        }
+    }
+
+    impl<T: Sample> FftFixedInOut<T> {
+        /// chunk_size_in, chunk_size_out, fft_size_in.
+        pub fn verif_state(&self) -> Vec<u64> {
+            vec![
+                self.chunk_size_in as u64,
+                self.chunk_size_out as u64,
+                self.fft_size_in as u64,
+            ]
+        }
+        pub fn verif_buffers(&self) -> &Vec<Vec<T>> {
+            &self.overlaps
+        }
+        pub fn verif_mask(&self) -> &Vec<bool> {
+            &self.channel_mask
         }
     }
 }
